@@ -11,7 +11,7 @@ from .facts import AnalysisBroken
 
 UNARY = {"std::exp": sp.exp, "exp": sp.exp, "std::abs": sp.Abs, "abs": sp.Abs, "std::fabs": sp.Abs, "fabs": sp.Abs,
          "std::conj": sp.conjugate, "conj": sp.conjugate, "std::real": sp.re, "real": sp.re, "std::imag": sp.im, "imag": sp.im,
-         "std::sqrt": sp.sqrt, "sqrt": sp.sqrt,
+         "std::sqrt": sp.sqrt, "sqrt": sp.sqrt, "std::floor": sp.floor, "floor": sp.floor, "std::ceil": sp.ceiling, "ceil": sp.ceiling,
          "expm1": lambda x: sp.exp(x) - 1, "std::expm1": lambda x: sp.exp(x) - 1, "log1p": lambda x: sp.log(1 + x), "std::log1p": lambda x: sp.log(1 + x)}
 ARITH_CTORS = ("std::complex",)
 TRANSPARENT_CALLS = ("std::complex::operator=",)
